@@ -543,7 +543,7 @@ func stripConv(v ssa.Value) ssa.Value {
 
 // storesTo lists the Store instructions in fn (and optionally its closures)
 // whose address has the given selector string under any root.
-func allInstrs(fn *ssa.Function, withClosures bool, f func(ssa.Instruction)) {
+func rawInstrs(fn *ssa.Function, withClosures bool, f func(ssa.Instruction)) {
 	for _, b := range fn.Blocks {
 		for _, in := range b.Instrs {
 			f(in)
@@ -551,9 +551,32 @@ func allInstrs(fn *ssa.Function, withClosures bool, f func(ssa.Instruction)) {
 	}
 	if withClosures {
 		for _, a := range fn.AnonFuncs {
-			allInstrs(a, true, f)
+			rawInstrs(a, true, f)
 		}
 	}
+}
+
+// allInstrs visits the instructions of fn's flattened view (fn's own, then
+// those of the unexported helpers spliced into it) and, if asked, of the
+// function literals nested in fn. Rules about "what fn does" use this; scans
+// of every function in the module use rawInstrs.
+func allInstrs(fn *ssa.Function, withClosures bool, f func(ssa.Instruction)) {
+	seen := map[ssa.Instruction]bool{}
+	var visit func(g *ssa.Function)
+	visit = func(g *ssa.Function) {
+		flatOf(g).All(func(in ssa.Instruction, _ *FB) {
+			if !seen[in] {
+				seen[in] = true
+				f(in)
+			}
+		})
+		if withClosures {
+			for _, a := range g.AnonFuncs {
+				visit(a)
+			}
+		}
+	}
+	visit(fn)
 }
 
 // viewInstrs visits every instruction of fn's flattened view once (the
